@@ -188,7 +188,7 @@ def _parse(text, props):
 
 def sites_for(T):
     sites = list(NOTE_SITES) + list(RAW_SITES)
-    if T == '' or all(blank(l) for l in T.split('\n')):
+    if T == '':
         # an empty note is "no note", an empty index name is "no name"
         sites = [x for x in sites if x in ('project_value', 'table_prop', 'column_prop', 'default')]
     return sites
@@ -200,7 +200,8 @@ def arm_parse(T, case):
     sites = sites_for(T)
     if T.strip(' \n') == '' and T != '':
         sites = sites_for(T) + []
-    s = schema_with(T, sites)
+    # the same text as a backtick expression (column default and index subject of the neighbour table): raw
+    s = schema_with(T, sites, expr=T if ('`' not in T and T != '') else None)
     quotes = ['t'] if '\n' in T else ["'", '"', 't']
     stored = {}
     for q in quotes:
